@@ -167,7 +167,7 @@ func (s *Store) Delete(ctx context.Context, target ocispec.Descriptor) error {
 	defer s.sync.Unlock()
 
 	deleteQueue := []ocispec.Descriptor{target}
-	for len(deleteQueue) > 0 {
+	for cascaded := false; len(deleteQueue) > 0; cascaded = true {
 		head := deleteQueue[0]
 		deleteQueue = deleteQueue[1:]
 
@@ -188,6 +188,11 @@ func (s *Store) Delete(ctx context.Context, target ocispec.Descriptor) error {
 		// delete the head of queue
 		danglings, err := s.delete(ctx, head)
 		if err != nil {
+			if cascaded && errors.Is(err, errdef.ErrNotFound) {
+				// the graph knows this node only through a link (e.g. after a
+				// reload); there is no content to collect
+				continue
+			}
 			return err
 		}
 		if s.AutoGC {
